@@ -111,7 +111,7 @@ func checkC02(cx *Ctx, r *Report) {
 		r.checkSources("R-VFG", fmt.Sprintf("sso:CreateAuthRequest:arg%d", a.idx), w.InstrPos(sites[0]), ls, []string{a.want, "const:"}, []string{a.want}, true)
 		// it is a load of the Response field
 		p := fx.path(sites[0].Common().Args[a.idx])
-		r.Check(strings.HasSuffix(p, "response."+a.fld), "R-VFG", fmt.Sprintf("sso:CreateAuthRequest:arg%d:same-field", a.idx), w.InstrPos(sites[0]), "is Response."+a.fld+", the field the selection result was stored to", "the value persisted is not Response."+a.fld+" (got "+p+"): the pair persisted can differ from the pair selected")
+		r.Check(strings.HasSuffix(fx.T(p), "<provider.Response>."+a.fld), "R-VFG", fmt.Sprintf("sso:CreateAuthRequest:arg%d:same-field", a.idx), w.InstrPos(sites[0]), "is Response."+a.fld+", the field the selection result was stored to", "the value persisted is not Response."+a.fld+" (got "+p+"): the pair persisted can differ from the pair selected")
 	}
 	// the selection's results are stored to the two fields together
 	for _, c := range w.callsTo(w.scopeOf(w.Func(kSSO)), matchFnKey(w, "provider.GetAcsUrlAndBindingForResponse")) {
@@ -129,7 +129,7 @@ func checkC02(cx *Ctx, r *Report) {
 				}
 			}
 		}
-		r.Check(strings.HasSuffix(got[0], "response.AcsUrl") && strings.HasSuffix(got[1], "response.ProtocolBinding"), "R-VFG", "sso:selection-results", w.InstrPos(c), "result #0 -> Response.AcsUrl, result #1 -> Response.ProtocolBinding", fmt.Sprintf("the selection's results are stored to %q / %q", got[0], got[1]))
+		r.Check(strings.HasSuffix(fx.T(got[0]), "<provider.Response>.AcsUrl") && strings.HasSuffix(fx.T(got[1]), "<provider.Response>.ProtocolBinding"), "R-VFG", "sso:selection-results", w.InstrPos(c), "result #0 -> Response.AcsUrl, result #1 -> Response.ProtocolBinding", fmt.Sprintf("the selection's results are stored to %q / %q", got[0], got[1]))
 	}
 
 	// --- callback entry ----------------------------------------------------------------------------
@@ -173,7 +173,7 @@ func checkC02(cx *Ctx, r *Report) {
 	lvf := cx.newVFlow("sendBackResponse", sb)
 	ls, sites := lvf.FieldStoreSources("provider.authResponseForm", "AssertionConsumerServiceURL")
 	if len(sites) > 0 {
-		r.checkSources("R-VFG", "sendBackResponse:form-action", w.InstrPos(sites[0]), ls, []string{"param:provider.(*Response).sendBackResponse/r.AcsUrl"}, []string{"param:provider.(*Response).sendBackResponse/r.AcsUrl"}, true)
+		r.checkSources("R-VFG", "sendBackResponse:form-action", w.InstrPos(sites[0]), ls, []string{"param:provider.(*Response).sendBackResponse/#0.AcsUrl"}, []string{"param:provider.(*Response).sendBackResponse/#0.AcsUrl"}, true)
 	} else {
 		r.Fail("R-VFG", "sendBackResponse:form-action", w.FnPos(sb), "the form action is not filled in sendBackResponse")
 	}
@@ -188,7 +188,7 @@ func checkC02(cx *Ctx, r *Report) {
 				if strings.HasPrefix(f, "%s?") {
 					if e := varargElem(sc.Call.Args[1], 0); e != nil {
 						ll := lvf.Labels(e).leaves()
-						okURL = len(ll) == 1 && ll[0] == "param:provider.(*Response).sendBackResponse/r.AcsUrl"
+						okURL = len(ll) == 1 && ll[0] == "param:provider.(*Response).sendBackResponse/#0.AcsUrl"
 					}
 				}
 			}
@@ -216,7 +216,7 @@ func (cx *Ctx) requireBindingGuard(r *Report, c ssa.CallInstruction, want, name 
 	for _, p := range pts {
 		okp := false
 		for _, a := range p.Atoms {
-			if a.Op == "EQ" && !a.Neg && (a.A == want && strings.HasSuffix(a.B, "r.ProtocolBinding") || a.B == want && strings.HasSuffix(a.A, "r.ProtocolBinding")) {
+			if a.Op == "EQ" && !a.Neg && (a.A == want && strings.HasSuffix(a.TB, "<provider.Response>.ProtocolBinding") || a.B == want && strings.HasSuffix(a.TA, "<provider.Response>.ProtocolBinding")) {
 				okp = true
 			}
 		}
